@@ -670,6 +670,10 @@ def _select(ctx, progs, forced=()):
     return groups, cover
 
 
+GROUP_DEADLINE = 2100
+TIE_DEADLINE = 2300
+
+
 def stage2(ctx, progs, built=None, forced=()):
     """built: result of build_proofs when the caller already ran it; forced: snapshots (of `runtime`) that must be part of
     the vrun differential (pairs a proved validator did not accept)"""
@@ -688,8 +692,17 @@ def stage2(ctx, progs, built=None, forced=()):
         stats["groups"] = len(groups)
         rounds = 3 if ctx.tier == "quick" else 5
 
+        # thorough: groups not started GROUP_DEADLINE seconds into the run are dropped (groups holding pairs a validator
+        # rejected come first), ties stop at TIE_DEADLINE: a loaded machine keeps the tier budget, an idle one does everything
+        thorough = ctx.tier != "quick"
+        t_run0 = getattr(ctx, "t0", t0)
+        if thorough:
+            groups.sort(key=lambda g: not any(s.get("verdict") == "rejected" for (s, _, _) in g.pairs))
+
         def work(kg):
             k, g = kg
+            if thorough and time.time() > t_run0 + GROUP_DEADLINE:
+                return g, "skipped", None
             try:
                 g.compile_defs(f"{os.getpid()}_{k}")
                 return g, run_group(g, rounds, f"{os.getpid()}_{k}"), None
@@ -700,6 +713,9 @@ def stage2(ctx, progs, built=None, forced=()):
         for k, (g, res, err) in enumerate(done):
             if err is not None:
                 ctx.violation("correspondence-broken", f"Coq evaluation of snapshots of {g.prog}/{g.level} failed", {"error": err})
+                continue
+            if res == "skipped":
+                stats["groups_skipped_budget"] = stats.get("groups_skipped_budget", 0) + 1
                 continue
             stats["parser_rejected"] += g.rejected
             stats["pairs"] += len(g.pairs)
@@ -721,6 +737,9 @@ def stage2(ctx, progs, built=None, forced=()):
                         continue
                     reported.add(p)
                     found |= _report_tv_mismatch(ctx, progs, g, p, i, j, f"{os.getpid()}_{k}")
+            if thorough and time.time() > t_run0 + TIE_DEADLINE:
+                stats["tie_skipped_budget"] = stats.get("tie_skipped_budget", 0) + 1
+                continue
             found |= _tie(ctx, progs, g, stats, f"{os.getpid()}_{k}")
             if ctx.tier == "thorough" or k % 3 == 0:
                 found |= _tie(ctx, progs, g, stats, f"{os.getpid()}_{k}", which="first")
